@@ -18,7 +18,8 @@ LEVEL = "other"
 LEVEL_TEXT = (
     "Mixed. Deductive (for all inputs 0..32768, all gains 0..1024, all windows in both orientations at once): range containment and "
     "monotonicity of the value delivered by the real MultiCtl.on_value_changed -> convert_value for every distinct declared target span, "
-    "with the default curve, without quantisation; the macro helper's structure; the 'unset mapping leaves the target untouched' frame. "
+    "with the default curve, without quantisation (and, thorough tier, containment on the quantisation path for six enumerated quantisation values); "
+    "the macro helper's structure; the 'unset mapping leaves the target untouched' frame; mappings stay attached to their output SLOT across freed slots. "
     "Floats are modelled exactly (rvproof.floats). Bounded: the quantisation path (division by a symbolic step: non-linear) and arbitrary "
     "monotone curves are checked by exhaustive enumeration of the value axis for enumerated parameter tuples (bounded_parts)."
 )
@@ -190,7 +191,10 @@ def macro_targets_keep_their_mappings_through_save_load(H, _):
     H.check("in_memory_link_order_is_argument_order", mc.out_links == [ms.index, flt.index, amp.index])
     q = rw.read_back(H, rw.write_container(H, p))
     mc2 = q.modules[mc.index]
-    H.check("loaded_link_order_is_argument_order", list(mc2.out_links) == [ms.index, flt.index, amp.index] and L.links_ok(q) is None)
+    order_ok = list(mc2.out_links) == [ms.index, flt.index, amp.index] and L.links_ok(q) is None
+    H.check("loaded_link_order_is_argument_order", order_ok)
+    if not order_ok:
+        return  # the delivery clauses below presuppose the structure (mappings applied to the wrong targets are not a numeric question)
     H.check("loaded_mappings_in_argument_order", [x.controller for x in mc2.mappings.values[:3]] == [x.controller for x in mc.mappings.values[:3]])
     v = H.int("value", 0, 32768)
     exc, _r = H.raises(H.setattr, mc2, "value", v)
@@ -416,3 +420,33 @@ def fanout_canary(H, _):
     value = H.int("value", 0, 32768)
     exc, got, _t = _deliver(H, "Amplifier", "volume", value, 256, 0, 32768)
     H.check("canary_never_reaches_maximum", got < 1024)
+
+
+def _quant_cases(tier):
+    # measured: each of these is decided in 30-100 s; q = 32767 (step 32768/32766, not dyadic) exhausted the path budget
+    # and is left to the exhaustive value-axis enumeration of quantised_and_curved_fanout (bounded)
+    qs = [1, 2, 3, 17, 256, 1000]
+    targets = [("Amplifier.volume", ("Amplifier", "volume")), ("Amplifier.balance", ("Amplifier", "balance"))]
+    return [(f"{cid},q={q}", (c, q)) for cid, c in targets for q in qs]
+
+
+@contract("quantised_fanout_in_range", ["C20"], targets=_T, cases=_quant_cases, timeout_ms=60000, tiers=("thorough",))
+def quantised_fanout_in_range(H, case):
+    """The quantisation path of convert_value (qsteps < 32768) for an enumerated set of quantisation values, every
+    input value, every gain and every window in both orientations, default curve: the delivery does not raise under
+    the strict range check and lies in the target's declared range."""
+    (cname, name), q = case
+    t = K.class_by_name(cname).controllers[name].value_type
+    value = H.int("value", 0, 32768)
+    gain = H.int("gain", 0, 1024)
+    wtop = (t.max - t.min) if isinstance(t, CompactRange) else 32768
+    wmin = H.int("wmin", 0, wtop)
+    wmax = H.int("wmax", 0, wtop)
+    orient = H.choice("window", ["normal", "reversed"])
+    H.assume(wmin <= wmax if orient == "normal" else wmin > wmax)
+    exc, got, target = _deliver(H, cname, name, value, gain, wmin, wmax, q=q)
+    H.check("delivery_does_not_raise", exc is None)
+    if exc is not None:
+        return
+    H.check("delivered_within_declared_range", H.and_(got >= t.min, got <= t.max))
+    H.cover("reached")
